@@ -377,8 +377,11 @@ Definition keys_with (m : marker) (es : list entry) : list Z :=
 (* SSHKnownHosts._match ; port = 0 stands for None (both are falsy in `if port:`).
    None = ValueError (addr given but not an IP address).
    [guard] = the exact index is consulted only for a non-empty name (repair 1ebb7df);
-   guard = false is the code before that repair (kept for the _old refutation). *)
-Definition kh_match_gen (guard : bool) (x : ext) (st : kh_state) (host addr : text) (port : Z)
+   guard = false is the code before that repair (kept for the _old refutation).
+   [portip] = false: address / CIDR patterns are matched by the parsed address only when the names
+   are plain, i.e. `ip = None` in the pass with a port (repair 9f68483); portip = true is
+   the code before (kept for the _mid / _old refutations). *)
+Definition kh_match_gen (guard portip : bool) (x : ext) (st : kh_state) (host addr : text) (port : Z)
   : option kh_result :=
   let ipr :=
     match addr with
@@ -387,7 +390,8 @@ Definition kh_match_gen (guard : bool) (x : ext) (st : kh_state) (host addr : te
     end in
   match ipr with
   | None => None
-  | Some ip =>
+  | Some ip0 =>
+      let ip := if (port =? 0) || portip then ip0 else None in
       let host' := if port =? 0 then host else with_port host port in
       let addr' := if port =? 0 then addr else with_port addr port in
       let ms :=
@@ -397,8 +401,9 @@ Definition kh_match_gen (guard : bool) (x : ext) (st : kh_state) (host addr : te
       Some {| r_host := keys_with MNone ms; r_ca := keys_with MCA ms; r_revoked := keys_with MRevoked ms |}
   end.
 
-Definition kh_match := kh_match_gen true.
-Definition kh_match_old := kh_match_gen false.
+Definition kh_match := kh_match_gen true false.
+Definition kh_match_mid := kh_match_gen true true.
+Definition kh_match_old := kh_match_gen false true.
 
 (* SSHKnownHosts.match : retry without the port when no trusted key / CA was found; the revoked
    keys of the lookup with the port are kept in front of those of the retry (repair 890407a) *)
@@ -408,6 +413,21 @@ Definition kh_lookup_st (x : ext) (st : kh_state) (host addr : text) (port : Z) 
   | Some r =>
       if negb (port =? 0) && negb (nonempty (r_host r) || nonempty (r_ca r))
       then match kh_match x st host addr 0 with
+           | Some r2 => Some {| r_host := r_host r2; r_ca := r_ca r2;
+                                r_revoked := r_revoked r ++ r_revoked r2 |}
+           | None => None
+           end
+      else Some r
+  end.
+
+(* the code between 890407a/1ebb7df and 9f68483: as kh_lookup_st, but address patterns were
+   matched by the parsed address in the pass with the port as well *)
+Definition kh_lookup_st_mid (x : ext) (st : kh_state) (host addr : text) (port : Z) : option kh_result :=
+  match kh_match_mid x st host addr port with
+  | None => None
+  | Some r =>
+      if negb (port =? 0) && negb (nonempty (r_host r) || nonempty (r_ca r))
+      then match kh_match_mid x st host addr 0 with
            | Some r2 => Some {| r_host := r_host r2; r_ca := r_ca r2;
                                 r_revoked := r_revoked r ++ r_revoked r2 |}
            | None => None
@@ -435,6 +455,12 @@ Definition kh_lookup_lines (x : ext) (lines : list text) (host addr : text) (por
 
 Definition kh_lookup (x : ext) (t : text) (host addr : text) (port : Z) : option kh_result :=
   kh_lookup_lines x (splitlines t) host addr port.
+
+Definition kh_lookup_lines_mid (x : ext) (lines : list text) (host addr : text) (port : Z) : option kh_result :=
+  match kh_load_lines x lines kh_empty with
+  | Some st => kh_lookup_st_mid x st host addr port
+  | None => None
+  end.
 
 Definition kh_lookup_lines_old (x : ext) (lines : list text) (host addr : text) (port : Z) : option kh_result :=
   match kh_load_lines x lines kh_empty with
